@@ -417,13 +417,33 @@ class _Precision(enum.Enum):
   HIGHEST = 2
 
 
-class PartitionSpec(tuple):
+class PartitionSpec:
+  """jax.sharding.PartitionSpec: a pytree LEAF with tuple-like access."""
 
-  def __new__(cls, *a):
-    return super().__new__(cls, a)
+  def __init__(self, *a):
+    self._a = tuple(a)
+
+  def __len__(self):
+    return len(self._a)
+
+  def __getitem__(self, i):
+    r = self._a[i]
+    return PartitionSpec(*r) if isinstance(i, slice) else r
+
+  def __iter__(self):
+    return iter(self._a)
+
+  def __bool__(self):
+    return bool(self._a)
+
+  def __eq__(self, o):
+    return isinstance(o, PartitionSpec) and o._a == self._a
+
+  def __hash__(self):
+    return hash(self._a)
 
   def __repr__(self):
-    return "PartitionSpec" + tuple.__repr__(self)
+    return "PartitionSpec" + repr(self._a)
 
 
 def with_sharding_constraint(x, spec):
